@@ -6,22 +6,33 @@ import json, os, shutil, subprocess, sys, tempfile
 here = os.path.dirname(os.path.abspath(__file__))
 verif = os.path.dirname(here)
 muts = json.load(open(os.path.join(here, "mutants.json")))
-flt = sys.argv[1:]
+full = "--full" in sys.argv[1:]
+flt = [a for a in sys.argv[1:] if a != "--full"]
 sel = [m for m in muts if not flt or any(f == m["prop"] or f in m["id"] for f in flt)]
 bad = 0
 ENV = dict(os.environ, GOFLAGS="-mod=mod", GOPROXY="off", GOSUMDB="off", GOTOOLCHAIN="local")
 baseline = {}
-def base_failed(prop, tier):
+def only_of(m):
+    """the function whose obligations are expected to fail: the check is restricted to it (fast); --full runs the whole property"""
+    if full or m.get("only") == "":
+        return None
+    if m.get("only"):
+        return m["only"]
+    e = m["expect"]
+    if "#" in e and not e.startswith("lemma#"):
+        return e.split("#")[0]
+    return None
+def base_failed(prop, tier, only=None):
     """obligations that fail on the unchanged tree (must be none): they are not evidence that a mutant is caught"""
-    if (prop, tier) not in baseline:
+    if (prop, tier, only) not in baseline:
         tmpb = tempfile.mkdtemp(prefix="govc-mutb-")
-        r = subprocess.run([os.path.join(verif, "bin/govc"), "check", "-prop", prop, "-tier", tier, "-repo", "/repo", "-verif", os.path.join(tmpb, "v"), "-no-evidence"], capture_output=True, text=True, env=ENV)
+        r = subprocess.run([os.path.join(verif, "bin/govc"), "check", "-prop", prop, "-tier", tier, "-repo", "/repo", "-verif", os.path.join(tmpb, "v"), "-no-evidence"] + (["-only", only] if only else []), capture_output=True, text=True, env=ENV)
         shutil.rmtree(tmpb, ignore_errors=True)
         fs = {l.split()[1] for l in (r.stdout + r.stderr).splitlines() if l.startswith("FAILED ") and "lemma#collKeyInjective" not in l}
         if fs:
             print(f"WARNING: {prop} {tier} fails on the unchanged tree: {sorted(fs)[:3]}")
-        baseline[(prop, tier)] = fs
-    return baseline[(prop, tier)]
+        baseline[(prop, tier, only)] = fs
+    return baseline[(prop, tier, only)]
 for m in sel:
     tmp = tempfile.mkdtemp(prefix="govc-mut-")
     try:
@@ -34,12 +45,12 @@ for m in sel:
         s = s.replace(m["old"], m["new"], m.get("count", 1))
         open(p, "w").write(s)
         tier = m.get("tier", "quick")
-        r = subprocess.run([os.path.join(verif, "bin/govc"), "check", "-prop", m["prop"], "-tier", tier, "-repo", repo, "-verif", os.path.join(tmp, "v"), "-no-evidence"] ,
+        r = subprocess.run([os.path.join(verif, "bin/govc"), "check", "-prop", m["prop"], "-tier", tier, "-repo", repo, "-verif", os.path.join(tmp, "v"), "-no-evidence"] + (["-only", only_of(m)] if only_of(m) else []),
                            capture_output=True, text=True, env=dict(os.environ, GOFLAGS="-mod=mod", GOPROXY="off", GOSUMDB="off", GOTOOLCHAIN="local"))
         out = r.stdout + r.stderr
         # expectation file of the real /verif is not used in the scratch verif dir (no expect there)
         failed = [l.split()[1] for l in out.splitlines() if l.startswith("FAILED ")]
-        failed = [f for f in failed if f not in base_failed(m["prop"], tier)]
+        failed = [f for f in failed if f not in base_failed(m["prop"], tier, only_of(m))]
         ok = r.returncode == 1 and any(m["expect"] in f for f in failed)
         print(("caught   " if ok else "MISSED   ") + f"{m['id']:28s} {m['prop']} exit={r.returncode} failed={failed[:4]}")
         if not ok:
